@@ -73,7 +73,7 @@ def proof_obligations(prop):
     t0 = time.time()
     gen_err = None
     try:
-        import gen_fragments, gen_guards, gen_skel, gen_emit, gen_loops, gen_optimize, gen_loader_guards, gen_param_guards, gen_handler_guards, gen_geo
+        import gen_fragments, gen_guards, gen_skel, gen_emit, gen_loops, gen_optimize, gen_loader_guards, gen_param_guards, gen_handler_guards, gen_geo, gen_render
         gen_info = gen_fragments.regenerate()
         gen_info["guards"] = gen_guards.regenerate()     # scan guards translated from the current sources
         gen_info["skeleton"] = gen_skel.regenerate()     # control skeleton of the scan loops, from the current sources
@@ -83,6 +83,7 @@ def proof_obligations(prop):
         gen_info["loader_guards"] = gen_loader_guards.regenerate()   # skip rules of the cache loaders, from the current sources
         gen_info["handler_guards"] = gen_handler_guards.regenerate() # /updateCache, status -> answer tables, loadAllData / updateX, /v2 skeleton
         gen_info["param_guards"] = gen_param_guards.regenerate()     # parameter factories (keys, normalisations, defaults, test order), from the current sources
+        gen_info["render"] = gen_render.regenerate()                 # the three JSON renderers: (key, member) pairs per object, reason switches, from the current sources
         gen_info["geo"] = gen_geo.regenerate()           # geographic filters: typed arithmetic of the walking radius, Euclidean rows, router pre-filter and row loop
     except Exception as e:   # translator failure is reported, never silently ignored
         gen_info = dict(error=str(e))
